@@ -192,3 +192,16 @@ Proof.
   replace (scan_call0 [B"a"; B"b"; B"c"] 1 2 (regexp_from_glob (B"*"))) with (2, [B"c"]) by (vm_compute; reflexivity).
   cbn [Z.eqb]. rewrite Fix. reflexivity.
 Qed.
+
+(* every matching key exactly once: with the keys of the record table distinct (they are: wf_db), the collected keys are distinct,
+   and a key is collected iff it is in the table and the pattern selects it *)
+Theorem scan_iteration_each_key_once (d : db) (p : bytes) (count : Z) : NoDup (map fst d) ->
+  exists ks, scan_iter (S (length d)) (sort_keys (map fst d)) 0 count (regexp_from_glob p) = Some ks /\
+             NoDup ks /\ forall k, In k ks <-> (In k (map fst d) /\ glob_match p k = true).
+Proof.
+  intros Nd. destruct (scan_iteration_agrees_with_keys d p count) as (ks & E & P). exists ks. split; [exact E|]. split.
+  - apply (Permutation_NoDup (Permutation_sym P)). apply NoDup_filter. exact Nd.
+  - intros k. rewrite <- filter_In. split; intros H.
+    + eapply Permutation_in; [exact P|exact H].
+    + eapply Permutation_in; [apply Permutation_sym; exact P|exact H].
+Qed.
